@@ -78,7 +78,7 @@ def _pick_knobs(rng, cname, hratio_hint):
     elif cname == 'StratifiedSFCNNPS':
         k['num_levels'] = rng.choice([1, 2, 3])
     elif cname in ('OctreeNNPS', 'CompressedOctreeNNPS'):
-        k['leaf_max_particles'] = rng.choice([10, 10, 1, 3])
+        k['leaf_max_particles'] = rng.choice([10, 10, 2, 3, 5])
         k['test_parallel'] = rng.choice([False, False, True])
     cfg = {'knobs': k, 'cache0': rng.random() < 0.5,
            'sort_gids': rng.random() < 0.25,
@@ -121,7 +121,9 @@ def gen_scenario(rng, sid, big=False, force=None):
     if gen == 'far' or rng.random() < 0.08:
         off = [rng.choice([-1, 1]) * rng.choice([10 ** 6, 10 ** 5, 12345]) * U
                for _ in range(3)]
-    consts = [rng.choice([0, 0, 5 * U, -3 * U]) for _ in range(3)]
+    # coordinates of the unused dimensions stay 0 (a dim-D problem lives in
+    # the first dim axes)
+    consts = [0, 0, 0]
 
     def pt_uniform():
         return [rng.randrange(0, L + 1) for _ in range(3)]
@@ -426,8 +428,12 @@ def query_all(nps, pas, cached, fill_all):
     for d in range(narr):
         nd = pas[d].get_number_of_particles()
         for s in range(narr):
-            if cached and fill_all and (d + s) % 2 == 0:
+            if cached:
+                # as AccelerationEval does before it asks for neighbours; the
+                # very first cached query without it is probed separately
+                # (probe_first_cached_query)
                 nps.set_context(s, d)
+            if cached and fill_all and (d + s) % 2 == 0:
                 nps.cache[d * narr + s].find_all_neighbors()
             ls = []
             for i in range(nd):
@@ -497,6 +503,15 @@ def classify(scn, cname, cfg, nps, pas, d, s, i, missing, extra):
     return 'misses-neighbour' + ('-multi-array' if multi else '-single-array')
 
 
+PROGRESS = None        # file object the child reports its current state to
+
+
+def _progress(st):
+    if PROGRESS is not None:
+        PROGRESS.write('S ' + json.dumps(st) + '\n')
+        PROGRESS.flush()
+
+
 def run_class(scn, cname, cfg, want_states=None):
     """run one class over the whole history.  Returns dict with per step/mode
     sha of canonical lists, failures vs the oracle, states."""
@@ -519,6 +534,7 @@ def run_class(scn, cname, cfg, want_states=None):
         res['cfg_changed'] = 'num_levels=1 (h ratio %g)' % hratio
     res['cfg'] = cfg
     narr = len(pas)
+    _progress(st)
     try:
         nps = construct(scn, cname, cfg, pas)
     except Exception as e:      # noqa
@@ -540,6 +556,7 @@ def run_class(scn, cname, cfg, want_states=None):
                     and allh and max(allh) / min(allh) > 8:
                 res['skipped'] = 'strat-hash-hratio-step-%d' % step
                 break
+            _progress(st)
             try:
                 nps.update_domain()
                 nps.update()
@@ -605,12 +622,14 @@ def _run_isolated(scn, cname):
         try:
             os.close(rd)
             signal.alarm(CHILD_TIMEOUT)      # a hang becomes `signal 14`
-            try:
-                r = run_class(scn, cname, scn['cfgs'][cname])
-            except Exception:      # noqa
-                r = {'cname': cname, 'machinery': traceback.format_exc()[-1500:]}
+            global PROGRESS
             with os.fdopen(wr, 'w') as fh:
-                fh.write(json.dumps(r))
+                PROGRESS = fh
+                try:
+                    r = run_class(scn, cname, scn['cfgs'][cname])
+                except Exception:      # noqa
+                    r = {'cname': cname, 'machinery': traceback.format_exc()[-1500:]}
+                fh.write('R ' + json.dumps(r) + '\n')
         except BaseException:      # noqa
             code = 3
         finally:
@@ -619,12 +638,21 @@ def _run_isolated(scn, cname):
     with os.fdopen(rd) as fh:
         data = fh.read()
     _, status = os.waitpid(pid, 0)
+    last_state, r = None, None
+    for line in data.split('\n'):
+        try:
+            if line.startswith('S '):
+                last_state = json.loads(line[2:])
+            elif line.startswith('R '):
+                r = json.loads(line[2:])
+        except ValueError:
+            pass
     if os.WIFSIGNALED(status):
-        return {'cname': cname, 'crash': 'signal %d' % os.WTERMSIG(status)}
-    try:
-        r = json.loads(data)
-    except ValueError:
-        return {'cname': cname, 'crash': 'exit status %d, no result' % status}
+        return {'cname': cname, 'crash': 'signal %d' % os.WTERMSIG(status),
+                'crash_state': last_state}
+    if r is None:
+        return {'cname': cname, 'crash': 'exit status %d, no result' % status,
+                'crash_state': last_state}
     if os.WEXITSTATUS(status) != 0:
         # the result was produced, the process died while tearing down
         r['crash_at_exit'] = os.WEXITSTATUS(status)
@@ -765,9 +793,17 @@ def nondy_model_text(scn, st, ptxt):
 
 # --------------------------------------------------------------------------
 
-def crash_condition(scn):
-    if any(len(a['h']) == 0 for a in scn['arrays']):
+def crash_condition(scn, cname, st):
+    """class of input on which the compiled code died"""
+    st = st if st is not None else scn['arrays']
+    if any(len(a['h']) == 0 for a in st):
         return '-with-empty-array'
+    if 'Octree' in cname:
+        leaf = scn['cfgs'][cname]['knobs'].get('leaf_max_particles', 10)
+        for a in st:
+            pts = list(zip(a['x'], a['y'], a['z']))
+            if pts and max(pts.count(p) for p in set(pts)) >= leaf:
+                return '-coincident-points-fill-a-leaf'
     return ''
 
 
@@ -790,12 +826,13 @@ def evaluate(scns, R, work, tag, nproc=16):
     for (sid, cname), r in sorted(results.items()):
         if r.get('crash'):
             scn = by_sid[sid]
-            key = 'C01:%s:crash%s' % (cname, crash_condition(scn))
+            key = 'C01:%s:crash%s' % (cname, crash_condition(scn, cname, r.get('crash_state')))
             R.count('fail:' + key)
             if R.d['distribution']['fail:' + key] <= 3:
                 R.prop_fail(key, {'scenario': scn, 'cls': cname, 'cfg': scn['cfgs'][cname]},
                             'a neighbour list for every query',
-                            'the process running the neighbour search died: %s' % r['crash'])
+                            'the process running the neighbour search died: %s; arrays at '
+                            'that point: %s' % (r['crash'], json.dumps(r.get('crash_state'))[:1500]))
     # states per scenario: from the first class that produced them
     lines, where = [], []
     states = {}
@@ -938,18 +975,9 @@ def replay(case, R):
     scn = dict(scn)
     scn['cfgs'] = dict(scn.get('cfgs', {}))
     scn['cfgs'][cname] = cfg
-    ctx = mp.get_context('fork')
-    path = os.path.join(R.work, 'replay.jsonl')
-    p = ctx.Process(target=worker_main, args=([(scn, [cname])], path))
-    p.start()
-    p.join()
-    res = None
-    for line in open(path):
-        r = json.loads(line)
-        if 'begin' not in r:
-            res = r
-    if res is None:
-        print('process died with exit code', p.exitcode)
+    res = _run_isolated(scn, cname)
+    if res.get('crash'):
+        print('the process running the neighbour search died: %s' % res['crash'])
         return 1
     if res.get('machinery'):
         print(res['machinery'])
@@ -986,7 +1014,7 @@ def main():
     evaluate(scns, R, a.work, 'main')
     R.note('main pass: %d scenarios x 12 classes in %.0f s' % (len(scns), time.time() - t0))
     unknown = [f for f in R.d['property_failures'] if f['key'] not in known_keys()]
-    if a.broken or R.d['disagreements'] or unknown:
+    if (a.broken or R.d['disagreements'] or unknown) and not os.environ.get('C01_NOSEARCH'):
         # failing-input search on the real code: more scenarios, weighted towards
         # the multi-array / variable-h generators where the bookkeeping differs
         rng2 = random.Random(a.seed + 777)
